@@ -45,8 +45,19 @@ thread_local! {
     pub static VSTATE: RefCell<Option<Rc<RefCell<SystemState>>>> = const { RefCell::new(None) };
 }
 
+/// Logical bound on the number of events of one run: generated programs are finite by
+/// construction, so exceeding this means a runaway loop (reported by the caller, never silent).
+pub const MAX_EVENTS: usize = 200_000;
+
 pub fn push_event(e: Event) {
-    EVENTS.with(|v| v.borrow_mut().push(e));
+    EVENTS.with(|v| {
+        let mut v = v.borrow_mut();
+        if v.len() >= MAX_EVENTS {
+            drop(v);
+            panic!("verif: event limit exceeded (runaway loop in the script under test)");
+        }
+        v.push(e)
+    });
 }
 
 // ------------------------------------------------------------------ shell main (mirror)
